@@ -657,6 +657,8 @@ class Connection(object):
             other = cls(self, other_id_pack2)
         else:  # might just have missed cache, FIX ME
             return False
+        # `other` was made from a bare identifier: its owner handed out no reference for it, so it has none to give back
+        other.____refcount__ = 0
         return isinstance(other, obj)
 
     def _handle_pickle(self, obj, proto):  # request handler
